@@ -4,6 +4,16 @@ rendering with the ANTEX 1.4 layouts of `Spec/Antex14.lean`, and what they say (
 
 A number cell carries the printed text together with the value it denotes; well-formedness ties the
 two (`parseFloat text = some val`).
+
+What a file may contain:
+  * header: version record, PCV TYPE record, comments before and after the PCV TYPE record;
+  * antenna sections (receiver or satellite, any number of sections per PRN): TYPE / SERIAL NO, DAZI,
+    ZEN1 / ZEN2 / DZEN, # OF FREQUENCIES, optional VALID FROM / VALID UNTIL, frequency sections with a NOAZI
+    row and azimuth rows, each optionally followed by its `START OF FREQ RMS … END OF FREQ RMS` section,
+    further rms sections after the last frequency section;
+  * lines the parser does not read — COMMENT, METH / BY / # / DATE, SINEX CODE, blank lines — before
+    any record of an antenna section (`AntM.deco`: the lines put in front of the i-th record) and after
+    the last antenna (`FileM.trailer`).
 -/
 import Midgard.Spec.Antex14
 import Midgard.Model.Antex
@@ -34,15 +44,29 @@ structure DateM where
   mins : Int
   deriving Repr, DecidableEq
 
-/-- one frequency section -/
-structure FreqM where
-  code : Str
+/-- the body of a frequency section or of an rms section -/
+structure SecM where
   north : NumCell
   east : NumCell
   up : NumCell
   noazi : List NumCell
   /-- azimuth rows: the printed azimuth and the values -/
   rows : List (Str × List NumCell)
+  deriving Repr, DecidableEq
+
+/-- one frequency section, optionally followed by its rms section -/
+structure FreqM where
+  code : Str
+  body : SecM
+  rms : Option SecM
+  deriving Repr, DecidableEq
+
+/-- a line the antenna-section parser does not read -/
+inductive Inert
+  | comment (t : Str)
+  | meth (method agency num date : Str)
+  | sinex (code : Str)
+  | blank
   deriving Repr, DecidableEq
 
 /-- one antenna section -/
@@ -59,6 +83,10 @@ structure AntM where
   validFrom : Option DateM
   validUntil : Option DateM
   freqs : List FreqM
+  /-- rms sections after the last frequency section: frequency code and body -/
+  rmsAfter : List (Str × SecM)
+  /-- unread lines: `deco[i]` stands in front of the i-th record of the section (record 0 is START OF ANTENNA) -/
+  deco : List (List Inert)
   deriving Repr, DecidableEq
 
 structure FileM where
@@ -67,8 +95,12 @@ structure FileM where
   pcvType : Str
   refAntenna : Str
   refSerial : Str
-  comments : List Str
+  /-- header comments before / after the PCV TYPE record (any text of at most 60 characters) -/
+  comments1 : List Str
+  comments2 : List Str
   antennas : List AntM
+  /-- unread lines after the last END OF ANTENNA -/
+  trailer : List Inert
   deriving Repr, DecidableEq
 
 /-! ### Rendering -/
@@ -80,13 +112,24 @@ def rec (kind : String) (cells : List Str) : Str := renderLabelled (spec kind) c
 def dateCells (d : DateM) : List Str :=
   [d.year.text, d.month.text, d.day.text, d.hour.text, d.minute.text, d.second.text]
 
-def freqLines (f : FreqM) : List Str :=
-  [rec "SOF" [f.code], rec "NEU" [f.north.text, f.east.text, f.up.text],
-   renderRow "NOAZI".toList (f.noazi.map (·.text))] ++
-  f.rows.map (fun r => renderRow r.1 (r.2.map (·.text))) ++
-  [rec "EOF" [f.code]]
+def neuCells (b : SecM) : List Str := [b.north.text, b.east.text, b.up.text]
 
-def antennaLines (a : AntM) : List Str :=
+def rowLine (r : Str × List NumCell) : Str := renderRow r.1 (r.2.map (·.text))
+
+def noaziLine (b : SecM) : Str := renderRow "NOAZI".toList (b.noazi.map (·.text))
+
+/-- NORTH / EAST / UP, the NOAZI row, the azimuth rows -/
+def bodyLines (b : SecM) : List Str := [rec "NEU" (neuCells b), noaziLine b] ++ b.rows.map rowLine
+
+def rmsLines (code : Str) (b : SecM) : List Str := [rec "SOR" [code]] ++ bodyLines b ++ [rec "EOR" [code]]
+
+def freqLines (f : FreqM) : List Str :=
+  [rec "SOF" [f.code]] ++ bodyLines f.body ++ [rec "EOF" [f.code]] ++
+  (match f.rms with
+   | some b => rmsLines f.code b
+   | none => [])
+
+def preambleLines (a : AntM) : List Str :=
   [rec "SOA" [], rec "TYP" [a.typ, a.code, a.satCode, a.cospar], rec "DAZI" [a.dazi.text],
    rec "ZEN" [a.zen1.text, a.zen2.text, a.dzen.text], rec "NFREQ" [a.numFreq]] ++
   (match a.validFrom with
@@ -94,30 +137,119 @@ def antennaLines (a : AntM) : List Str :=
    | none => []) ++
   (match a.validUntil with
    | some d => [rec "VUNTIL" (dateCells d)]
-   | none => []) ++
-  (a.freqs.map freqLines).flatten ++
+   | none => [])
+
+/-- the records of an antenna section (everything but the unread lines) -/
+def sigLines (a : AntM) : List Str :=
+  preambleLines a ++ (a.freqs.map freqLines).flatten ++ (a.rmsAfter.map fun r => rmsLines r.1 r.2).flatten ++
   [rec "EOA" []]
 
-def headerLines (F : FileM) : List Str :=
-  [rec "VER" [F.version, F.satSys], rec "PCV" [F.pcvType, F.refAntenna, F.refSerial]] ++
-  F.comments.map (fun c => rec "COM" [c]) ++ [rec "EOH" []]
+def inertLine : Inert → Str
+  | .comment t => rec "COM" [t]
+  | .meth a b c d => rec "METH" [a, b, c, d]
+  | .sinex c => rec "SINEX" [c]
+  | .blank => []
 
-def fileLines (F : FileM) : List Str := headerLines F ++ (F.antennas.map antennaLines).flatten
+/-- `deco[i]` in front of the i-th record -/
+def weave {α} : List α → List (List α) → List α
+  | [], _ => []
+  | x :: xs, [] => x :: xs
+  | x :: xs, d :: ds => d ++ x :: weave xs ds
+
+def antennaLines (a : AntM) : List Str := weave (sigLines a) (a.deco.map (·.map inertLine))
+
+def headerLines (F : FileM) : List Str :=
+  [rec "VER" [F.version, F.satSys]] ++ F.comments1.map (fun c => rec "COM" [c]) ++
+  [rec "PCV" [F.pcvType, F.refAntenna, F.refSerial]] ++ F.comments2.map (fun c => rec "COM" [c]) ++ [rec "EOH" []]
+
+def fileLines (F : FileM) : List Str :=
+  headerLines F ++ (F.antennas.map antennaLines).flatten ++ F.trailer.map inertLine
+
+def joinLines : List Str → Str
+  | [] => []
+  | l :: ls => l ++ '\n' :: joinLines ls
+
+/-- the file text: every line closed by a newline -/
+def render (F : FileM) : Str := joinLines (fileLines F)
+
+/-! ### Well-formedness (decidable) -/
+
+/-- printable ASCII -/
+def okText (s : Str) : Bool := s.all fun c => decide (32 ≤ c.toNat) && decide (c.toNat < 127)
+
+/-- the cells of a record of kind `k`: printable, no outer blanks, as many as the record has fields, each
+no wider than its field -/
+def okRec (k : String) (cells : List Str) : Bool :=
+  cells.all okText && decide (cells.length = (spec k).layout.length) && Fits (spec k).layout ((spec k).aligns.zip cells)
+
+def okNum (c : NumCell) : Bool := parseFloat c.text == some c.val
+
+def okInt (c : IntCell) : Bool := parseInt? c.text == some c.val
+
+/-- a whitespace-free non-empty text -/
+def isToken (t : Str) : Bool := !t.isEmpty && t.all (fun c => !isSpace c)
+
+/-- a printed number as it may appear in a correction row: a token without letters or `#` -/
+def isNumText (t : Str) : Bool := isToken t && t.all (fun c => !(isAlpha c || c == '#'))
+
+/-- a value of a correction row: leaves at least one blank in its 8 columns -/
+def okRowVal (c : NumCell) : Bool := okText c.text && isNumText c.text && decide (c.text.length ≤ 7) && okNum c
+
+def okRow (r : Str × List NumCell) : Bool :=
+  okText r.1 && isToken r.1 && decide (r.1.length ≤ 8) && r.1 != "NOAZI".toList && r.2.all okRowVal
+
+def SecM.wf (b : SecM) : Bool :=
+  okRec "NEU" (neuCells b) && okNum b.north && okNum b.east && okNum b.up &&
+  b.noazi.all okRowVal && b.rows.all okRow
+
+def DateM.wf (d : DateM) : Bool :=
+  okRec "VFROM" (dateCells d) && okInt d.year && okInt d.month && okInt d.day && okInt d.hour && okInt d.minute &&
+  okNum d.second && datetimeMinutes? d.year.val d.month.val d.day.val d.hour.val d.minute.val == some d.mins
+
+def FreqM.wf (f : FreqM) : Bool :=
+  okRec "SOF" [f.code] && f.body.wf && (match f.rms with | some b => b.wf | none => true)
+
+def Inert.wf : Inert → Bool
+  | .comment t => okText t && decide (t.length ≤ 60)
+  | .meth a b c d => okRec "METH" [a, b, c, d]
+  | .sinex c => okRec "SINEX" [c]
+  | .blank => true
+
+def AntM.wf (a : AntM) : Bool :=
+  okRec "TYP" [a.typ, a.code, a.satCode, a.cospar] &&
+  okRec "DAZI" [a.dazi.text] && okNum a.dazi &&
+  okRec "ZEN" [a.zen1.text, a.zen2.text, a.dzen.text] && okNum a.zen1 && okNum a.zen2 && okNum a.dzen &&
+  okRec "NFREQ" [a.numFreq] &&
+  (match a.validFrom with | some d => d.wf | none => true) &&
+  (match a.validUntil with | some d => d.wf | none => true) &&
+  a.freqs.all (·.wf) && a.rmsAfter.all (fun r => okRec "SOR" [r.1] && r.2.wf) &&
+  a.deco.all (·.all (·.wf))
+
+/-- **well-formed**: every cell is printable, has no outer blanks and fits its columns (comments: any
+printable text of at most 60 characters); every number cell denotes its value; printed dates exist;
+correction-row values leave one blank in their 8 columns.  Nothing is required about uniqueness of
+antennas, frequencies or validity periods: `calibrations` says which files are refused. -/
+def FileM.wf (F : FileM) : Bool :=
+  okRec "VER" [F.version, F.satSys] && okRec "PCV" [F.pcvType, F.refAntenna, F.refSerial] &&
+  (F.comments1 ++ F.comments2).all (fun t => okText t && decide (t.length ≤ 60)) &&
+  F.antennas.all (·.wf) && F.trailer.all (·.wf)
 
 /-! ### What the file says -/
 
 def dateMicros (d : DateM) : Int := validMicros d.mins d.second.val
 
 /-- the parser's cache when END OF FREQUENCY of the `k`-th (0-based) frequency `f` of antenna `a` is
-reached — stated from the file model's *values*, no text involved -/
+reached — stated from the file model's *values*, no text involved: the antenna's own records, the number
+`k` of frequencies already stored, and the offsets / NOAZI row / azimuth rows of *this* frequency section
+(nothing of an earlier frequency section or of an rms section) -/
 def cacheAt (a : AntM) (k : Nat) (f : FreqM) : Cache :=
   { antennaType := some a.typ, antennaCode := some a.code, satCode := some a.satCode, cosparId := some a.cospar,
     dazi := some a.dazi.val, zen1 := some a.zen1.val, zen2 := some a.zen2.val, dzen := some a.dzen.val,
     numFreq := some a.numFreq, counter := some k,
     validFrom := a.validFrom.map dateMicros, validUntil := a.validUntil.map dateMicros,
-    freqCode := some f.code, north := some f.north.val, east := some f.east.val, up := some f.up.val,
-    noazi := some (f.noazi.map (·.val)),
-    azi := if f.rows = [] then none else some (f.rows.map fun r => r.2.map (·.val)) }
+    freqCode := some f.code, north := some f.body.north.val, east := some f.body.east.val, up := some f.body.up.val,
+    noazi := some (f.body.noazi.map (·.val)),
+    azi := if f.body.rows = [] then none else some (f.body.rows.map fun r => r.2.map (·.val)) }
 
 /-- storing the frequencies of one antenna, in order, into `self.data` -/
 def storeFreqs (a : AntM) : List FreqM → Nat → State → Except Err State
@@ -139,12 +271,15 @@ def storeAntennas : List AntM → State → Except Err State
     | .ok s' => storeAntennas as s'
     | .error e => .error e
 
+def allComments (F : FileM) : List Str := (F.comments1 ++ F.comments2).map strip
+
 def headerState (F : FileM) : State :=
   { metaText := [("version", F.version), ("sat_sys", F.satSys), ("pcv_type", F.pcvType),
                  ("ref_antenna", F.refAntenna), ("ref_serial_num", F.refSerial)],
-    comments := if F.comments = [] then none else some F.comments }
+    comments := if allComments F = [] then none else some (allComments F) }
 
-/-- **what the file says**: header fields, then every antenna's frequencies stored from their values -/
+/-- **what the file says**: header fields and comments, then every antenna's frequencies stored from
+their values (rms sections and unread lines contribute nothing) -/
 def calibrations (F : FileM) : Except Err State := storeAntennas F.antennas (headerState F)
 
 end Midgard.Spec.AntexFile
